@@ -243,6 +243,24 @@ func (x *c05Exec) start(name string) {
 			x.put(c05Filler(x.env.node, 32), 30_000, false, "start")
 			x.put(c05Filler(x.env.node, 33), 30_000, false, "start") // crosses 1 MB: prune
 		}
+	case "cap2-many-tiny-far":
+		// capacity 2 MB: 2600 items of 8 bytes at the far end (104 kB, more than the 5% a pruning
+		// pass must free) and 18 items of 100 kB near the node: 95% full. The pass that the next
+		// large put triggers has to delete more than 2500 items.
+		mk := func(hi byte, i int) []byte {
+			d := make([]byte, 32)
+			d[0], d[1], d[2], d[3] = hi, 0x01, byte(i>>8), byte(i)
+			for k := range d {
+				d[k] ^= x.env.node[k]
+			}
+			return d
+		}
+		for i := 0; i < 2600; i++ {
+			x.put(mk(0xff, i), 8, false, "start")
+		}
+		for i := 0; i < 18; i++ {
+			x.put(mk(0x00, i), 100_000-32, false, "start")
+		}
 	case "rewritten-farthest":
 		// 28 items, the three farthest of which were written twice (an older version of each lies
 		// below the current one in the database): what a pruning pass deletes must stay deleted
@@ -282,8 +300,11 @@ func c05Run1(r5, r6 *mc.Report, node string, hist []string) (canon string, expan
 	}
 	msg := inBubble(func() {
 		capMB := uint64(1)
-		if hist[0] == "cap0" {
+		switch hist[0] {
+		case "cap0":
 			capMB = 0
+		case "cap2-many-tiny-far":
+			capMB = 2
 		}
 		env, err := newStoreEnv(c04Nodes[node], capMB, true)
 		if err != nil {
@@ -336,6 +357,7 @@ func c05Units(thorough bool) []c05Unit {
 			}
 			us = append(us, c05Unit{node, start, d})
 		}
+		us = append(us, c05Unit{node, "cap2-many-tiny-far", 1}) // 2618 puts to set up: one put deep only
 	}
 	return us
 }
